@@ -45,11 +45,12 @@ def required(tier):
             'add:in-memory store refused (would evict)', 'save:in-memory->file',
             'get:beyond-end:append', 'get:beyond-end:read',
             'assoc-lag:append-continues-base-list', 'iter-overlapping:read',
-            'iter-overlapping:append',
+            'iter-overlapping:append', 'save:onto-existing-file:refused:ValueError',
             'big-store:more-than-255-trajectories' if tier == 'quick' else
             'big-store:more-than-32767-trajectories',
         ],
-        'counters': {'evictions': 1, 'append_old_reload': 1, 'append_new_reload': 1},
+        'counters': {'evictions': 1, 'append_old_reload': 1, 'append_new_reload': 1,
+                     'oversize_refusals': 1},
         'evaluations': 500,
     }
 
@@ -96,6 +97,12 @@ def one_history(rng: random.Random, workdir: Path, rec, k: int):
                 h.check_len()
             elif r < 0.80 and h.writable and h.session != 'create_mem' and n > 0:
                 h.op_sync()
+                if rng.random() < 0.3:
+                    h.op_add_oversize()
+            elif r < 0.83 and h.session == 'create_mem' and n > 0:
+                h.op_save_rejected()
+                if rng.random() < 0.5:
+                    h.op_add_oversize()
             elif r < 0.86 and h.session == 'create_mem' and n > 0:
                 h.op_save()
             elif r < 0.97:
